@@ -277,6 +277,19 @@ def gen_C18(tier, rng):
     for i in range(N):
         yield dict(kind="run", spec=_spec(rng, gen.CONVEX + gen.NONCONVEX, nmax=8), cfg=gen.random_config(rng),
                    scaler=(float(10 ** rng.uniform(-2, 2)) if rng.random() < 0.2 else None))
+    # a pair rejected by the curvature test followed by a failed line search (memory reboot) followed by accepted pairs: the
+    # rebooted history must restart from the last STORED point and ITS gradient (non-convex objectives, tiny line-search budget)
+    for i in range(200 if tier == "quick" else 3000):
+        cfg = gen.random_config(rng)
+        cfg.update(maxls=int(rng.integers(1, 3)), maxiter=int(rng.integers(8, 30)), maxfun=int(rng.integers(40, 200)), maxcor=int(rng.integers(2, 7)))
+        yield dict(kind="run", spec=_spec(rng, gen.NONCONVEX, nmax=6), cfg=cfg, scaler=None)
+    # directed: as soon as an update is rejected (the number of pairs did not grow), the objective makes the NEXT line search fail
+    # (huge values at its trial points), which triggers the memory reboot with more than one stored point
+    for i in range(150 if tier == "quick" else 2000):
+        cfg = gen.random_config(rng)
+        cfg.update(maxls=int(rng.integers(1, 4)), maxiter=int(rng.integers(8, 30)), maxfun=int(rng.integers(60, 300)), maxcor=int(rng.integers(2, 7)),
+                   ftol=0.0, gtol=1e-10)
+        yield dict(kind="reboot", spec=_spec(rng, gen.NONCONVEX, nmax=6), cfg=cfg, scaler=None)
     M = 150 if tier == "quick" else 3000
     for i in range(M):
         yield dict(kind="diag", n=int(rng.integers(1, 31)), m=int(rng.integers(1, 13)), pseed=int(rng.integers(0, 2**31 - 1)))
@@ -320,11 +333,35 @@ def eval_C18(case):
     P = gen.make_problem(case["spec"])
     s = case.get("scaler")
     extra = {"gradient_scaler": (lambda x, g, lb, ub: s)} if s is not None else None
-    R = run_instrumented(P, case["cfg"], extra=extra)
+    on_state = None
+    if case["kind"] == "reboot":
+        # objective that sabotages exactly one line search: the one that follows the first rejected update
+        import copy as _copy
+        st = dict(prev_pairs=0, window=0, used=False)
+        P0 = P
+        P = _copy.copy(P0)
+
+        def f_sab(x):
+            if st["window"] > 0:
+                st["window"] -= 1
+                return float(P0.f(x)) + 1e6 * (1.0 + abs(float(P0.f(x))))
+            return P0.f(x)
+        P.f = f_sab
+
+        def on_state(state):
+            m = pairs_of(state)[0]
+            npairs = 0 if (m.shape[0] == 1 and not m.any()) else m.shape[0]
+            if not st["used"] and npairs >= 1 and npairs == st["prev_pairs"] and npairs < case["cfg"]["maxcor"]:
+                st["window"], st["used"] = case["cfg"]["maxls"], True
+            st["prev_pairs"] = npairs
+    R = run_instrumented(P, case["cfg"], extra=extra, on_state=on_state)
     if R.exc is not None:
+        if case["kind"] == "reboot" and type(R.exc).__name__ == "LinAlgError":
+            return _out(None, key=None, skipped="linear algebra failure on a sabotaged non-convex run")
         return _out(f"run raised {type(R.exc).__name__}: {R.exc}", signature="C18 exception")
     fail = c18_pred(R, P, case["cfg"], scale=s or 1.0)
     npairs = pairs_of(R.res)[0].shape[0]
     return _out(fail, key=("run", case["spec"]["pseed"]), nontrivial=npairs >= 2,
                 sample=dict(case=case, npairs=int(npairs), nit=R.res.nit), signature="C18 " + (fail or "")[:40],
-                kind="run", family=case["spec"]["family"], full_memory=npairs == case["cfg"]["maxcor"])
+                kind=case["kind"], family=case["spec"]["family"], full_memory=npairs == case["cfg"]["maxcor"],
+                sabotage_used=bool(case["kind"] == "reboot" and st["used"]))
